@@ -875,8 +875,19 @@ def partial_ops(ctx, reach, tr=None):
                                     isinstance(b.value, ast.Call) and
                                     repo_noreturn(b.value) for b in s.body):
                             guarded = True
+            admits = None
+            if guarded and kind[0] == 'bytes' and outer is None:
+                admits = _bytes_guard_admits(fn, cfg, node, subj)
             ctx.instance(rule, construct, sample={'kind': kind[0],
-                                                  'guarded': guarded})
+                                                  'guarded': guarded,
+                                                  'guard_admits': admits})
+            if admits:
+                ctx.finding(rule, construct + ':range',
+                            f'the range guard in front of '
+                            f'`{unparse(node)[:40]}` in {f.qualname} lets '
+                            f'{subj} = {admits} through; bytes() raises '
+                            f'ValueError outside 0..255 and nothing maps it '
+                            f'to a trap', f.file, node.lineno)
             if not guarded:
                 ctx.finding(rule, construct,
                             f'{kind[0]} operation `{unparse(node)[:60]}` in '
@@ -886,6 +897,59 @@ def partial_ops(ctx, reach, tr=None):
                             f'trap (tick maps {sorted(boundary)})',
                             f.file, node.lineno)
     ctx.floor('partial operations examined', n, 8)
+
+
+def _bytes_guard_admits(fn, cfg, node, subj):
+    """The guards found for bytes([subj]) evaluated at the two values next
+    to the byte range: the list of those that still reach the call.  A
+    guard that mentions anything besides the subject and constants is left
+    undecided (None)."""
+    st = node
+    while not isinstance(st, ast.stmt):
+        st = st._parent
+    guards = []          # (test expr, value the test has on the way here)
+    for x in (y for y in cfg.nodes if y.ast is st):
+        for tnode, lab in cfg.conditions(x):
+            if subj in unparse(tnode.ast.test):
+                guards.append((tnode.ast.test, lab == 'true'))
+    for s_ in walk_shallow(fn):
+        if isinstance(s_, ast.If) and s_.lineno < node.lineno and \
+                subj in unparse(s_.test) and not s_.orelse and any(
+                    isinstance(b, ast.Expr) and
+                    isinstance(b.value, ast.Call) and
+                    repo_noreturn(b.value) for b in s_.body):
+            guards.append((s_.test, False))
+    if not guards:
+        return None
+
+    class Sub(ast.NodeTransformer):
+        def __init__(self, v):
+            self.v = v
+
+        def generic_visit(self, n):
+            if isinstance(n, ast.expr) and unparse(n) == subj:
+                return ast.Constant(self.v)
+            return super().generic_visit(n)
+
+    admitted = []
+    for v in (-1, 256):
+        reaches = True
+        for test, want in guards:
+            import copy
+            e = ast.Expression(Sub(v).visit(copy.deepcopy(test)))
+            ast.fix_missing_locations(e)
+            if any(isinstance(z, (ast.Name, ast.Call, ast.Attribute))
+                   for z in ast.walk(e)):
+                continue                 # not about the subject alone
+            try:
+                got = bool(eval(compile(e, '<guard>', 'eval'), {}))
+            except Exception:
+                continue
+            if got != want:
+                reaches = False
+        if reaches:
+            admitted.append(v)
+    return admitted
 
 
 def indexed_runtime_strings(ctx):
